@@ -33,6 +33,9 @@ RULE += (
 RULE += (
     ' Round 9: family overlap - anyOf alternatives that accept common values but build them differently (1 vs 1.0, model A vs model B), threads validating values that match different branches.'
 )
+RULE += (
+    ' Round 10: family 9220 - a model with a class-level default ({} or one member) as a property, omitted in one thread and supplied in another.'
+)
 ASSUMPTIONS = [
     "interleavings at line granularity of pure-Python statham frames under the GIL; C-level operations are atomic; no claim for free-threaded builds",
     "the free-running stress can only miss violations, never invent them (if the property holds no schedule can produce a mismatch)",
@@ -92,6 +95,15 @@ def cases(draw):
                                                          {"id": 9208, "kind": "Element", "kw": {}}]
         if recipe["kind"] == "Object":
             recipe["name"] = "Order"
+        if draw(st.booleans()):
+            # a MODEL with a class-level default (the empty object, or one member) as a property: omitted in one
+            # thread (built from the default), supplied in another
+            recipe["props"].append({"name": "options", "source": None, "required": False, "element": {
+                "id": 9210, "kind": "Object", "name": "Options", "kw": {"default": draw(st.sampled_from([{}, {}, {"retries": 7}]))},
+                "props": [{"name": "retries", "source": None, "required": False,
+                           "element": {"id": 9211, "kind": "Integer", "kw": {"default": 3}}},
+                          {"name": "mode", "source": None, "required": False, "element": {"id": 9212, "kind": "String", "kw": {}}}]}})
+            recipe["id"] = 9220
     elif draw(st.integers(0, 5)) == 0:
         # TUPLE items under named properties (per-position handling of the enclosing property), validated by
         # several threads at once
@@ -141,8 +153,11 @@ def cases(draw):
         key = "order-lines" if "order-lines" in canon(schema) else "lines"
         pool = [{key: ["a", 1, {"sku": "x"}]}, {key: ["a", 1, {"sku": "x"}], "pair": [1, 2]}, {key: ["a"]}, {key: [1]},
                 {"pair": [1, 2.5]}, {"pair": ["x"]}, {key: ["a", 1, {"sku": 5}]}, {key: ["b", 2, {}, 7], "pair": [0, 0]}]
-    if recipe.get("id") == 9200:
+    if recipe.get("id") in (9200, 9220):
         pool = [{}, {}, {"n": 1}, {"n": 2}, {"lines": []}, {"meta": 5}] + pool[:2]
+    if recipe.get("id") == 9220:
+        pool = [{}, {"n": 1}, {"options": {"retries": 1}}, {"options": {}}, {"options": {"mode": "x"}, "n": 2},
+                {"options": {"retries": 2, "mode": "y"}}, {"meta": 5}]
     if "format" in canon(schema):
         strs = ["12345678-1234-5678-1234-567812345678", "not-a-uuid", "1990-12-31T23:59:60Z", "yesterday", "ab", "abc"]
         pool += draw(st.lists(st.sampled_from(strs), min_size=2, max_size=3))
@@ -153,7 +168,7 @@ def cases(draw):
     focus = draw(st.lists(st.tuples(st.sampled_from(MODULES), st.integers(0, 40), st.integers(1, 3)), max_size=6))
     dense = draw(st.lists(st.sampled_from(MODULES), max_size=1)) if draw(st.integers(0, 2)) == 0 else []
     # the directed families know which module's lines matter for them: switch at every line of it, half of the time
-    home = {9100: "schema/validation/object.py", 9200: "schema/elements/base.py", 9300: "schema/elements/items.py",
+    home = {9100: "schema/validation/object.py", 9200: "schema/elements/base.py", 9220: "schema/elements/object.py", 9300: "schema/elements/items.py",
             9500: "schema/validation/numeric.py", 9501: "schema/validation/numeric.py",
             9000: "schema/validation/format.py", 9001: "schema/validation/format.py"}.get(recipe.get("id"))
     if home and draw(st.booleans()):
